@@ -127,3 +127,25 @@ Definition reconnect_subs (p : path) (es : list sub_env) : list (nat * fate) * n
 
 (* `case activeSubs > 0: c.resumeSubscriptions(ctx)` — otherwise the publish loop stays paused *)
 Definition publishing_resumed (p : path) (es : list sub_env) : bool := 0 <? snd (reconnect_subs p es).
+
+(* --- the monitored items of a subscription across consecutive reconnects ------------------------------------------ *)
+
+(* item table: number of monitored items per TimestampsToReturn value (recreate_monitoredItems sends one
+   CreateMonitoredItems request per value) *)
+Definition total_items (groups : list nat) : nat := fold_right plus 0 groups.
+
+(* one reconnect: (items the client asks the server to create, item table afterwards).  A recreate rebuilds EVERY
+   group from the table it had; a failed CreateMonitoredItems leaves the table empty (it was cleared first). *)
+Definition round_items (p : path) (e : sub_env) (groups : list nat) : nat * list nat :=
+  match fst (reconnect_subs p [e]) with
+  | [(_, Recreated _)] => (total_items groups, if se_items_ok e then groups else [])
+  | [(_, Lost)] => (0, [])
+  | _ => (0, groups)
+  end.
+
+Fixpoint rounds_items (k : nat) (p : path) (e : sub_env) (groups : list nat) : list nat * list nat :=
+  match k with
+  | 0 => ([], groups)
+  | S k' => let '(req, g1) := round_items p e groups in
+            let '(reqs, gk) := rounds_items k' p e g1 in (req :: reqs, gk)
+  end.
